@@ -6,7 +6,10 @@ Streams:
   A        gen.SC_apply on random option tables (dyadic values: exact in float and in Q) vs the model, every column
            range, tolerances on both sides of each margin, exact ties, duplicates, NaN patterns, malformed inputs;
   B        result.Lab of SSIcov / SSIdat / pLSCF and the _MS variants vs the model applied to their own result tables
-           (Fn_poles, Xi_poles, Phi_poles) with their run parameters (column<->order map of each class).
+           (Fn_poles, Xi_poles, Phi_poles) with their run parameters (column<->order map of each class);
+  B-hc     the same for every class variant with each hard criterion (conj, xi_max, mpc_lim, mpd_lim, and cov_max with
+           calc_unc for SSIcov cov_mm) set at a quantile of the unfiltered values so that it rejects some poles: the labels
+           must be the label function of the RETURNED tables, and no returned NaN cell may be labelled stable.
 Oracle: the property text written in NumPy floats (independent of the model), run on every input of every stream.
 """
 import glob
@@ -548,6 +551,15 @@ def class_case(ctx, kind, data, fs, params, exprs, meta, label, store_data=False
     if not finite_tables(Fn, Xi, Phi):
         ctx.note("%s produced an infinite table entry; case skipped" % site)
         return
+    # clause "rejected (NaN) poles are never labelled stable", directly on the RETURNED tables (the labels must be a
+    # function of the filtered tables the result carries, not of an earlier stage of the filtering)
+    rejected = np.isnan(Fn) | np.isnan(Xi) | np.isnan(Phi).any(axis=2)
+    if Lab.shape == Fn.shape and (Lab[rejected] != 0).any():
+        i, o = [int(v) for v in np.argwhere(rejected & (Lab != 0))[0]]
+        ctx.fail("oracle", "%s: %d rejected (NaN) poles of the returned tables are labelled stable, e.g. (row %d, column %d)"
+                 % (site, int((Lab[rejected] != 0).sum()), i, o),
+                 dict(case, **case_json(Fn, Xi, Phi), Lab=Lab.tolist(), data=data, cell=[i, o], expected=0, got=int(Lab[i, o]), reason="nan-pole"),
+                 key="C10:%s:spurious-nan-pole" % site)
     if not evaluate:
         return Lab
     order = (lambda o: o + 1) if is_p else (lambda o: o)
@@ -564,7 +576,7 @@ def class_configs(ctx):
     quick = ctx.quick()
     out = []
     kinds = ["SSIcov", "SSIdat", "pLSCF", "pLSCF", "SSIcov_MS", "SSIdat_MS", "pLSCF_MS"]
-    reps = ctx.n(3, 12)
+    reps = ctx.n(2, 12)
     for rep in range(reps):
         for kind in kinds:
             is_p = kind.startswith("pLSCF")
@@ -608,6 +620,100 @@ def class_configs(ctx):
     return out
 
 
+HC_OPEN = dict(conj=False, xi_max=1e9, mpc_lim=-1.0, mpd_lim=1e9)
+
+
+def bite_variants(ctx):
+    """(kind, extra params) of every class variant whose hard criteria are exercised one at a time."""
+    v = [("SSIcov", dict(method="cov_mm", calc_unc=True, nb=20)), ("SSIcov", dict(method="cov_R")), ("SSIdat", {}), ("pLSCF", dict(method_SD="per")),
+         ("SSIcov_MS", dict(method="cov_mm")), ("SSIdat_MS", {}), ("pLSCF_MS", dict(method_SD="per"))]
+    if not ctx.quick():
+        v += [("pLSCF", dict(method_SD="cor")), ("SSIcov_MS", dict(method="cov_R"))]
+    return v
+
+
+def bite_stream(ctx, exprs, meta):
+    """For every class variant: one run with every hard criterion open (unfiltered tables), then one run per hard criterion with
+    its threshold at a quantile of the unfiltered values, so that it rejects some but not all poles.  Each run is judged like any
+    class case: Lab against the model and the text applied to the RETURNED tables, and no NaN cell labelled stable."""
+    from pyoma2.functions import gen
+
+    rng, nrng = ctx.rng, ctx.np_rng
+    for rnd in range(ctx.n(1, 3)):
+        for kind, extra in bite_variants(ctx):
+            is_p = kind.startswith("pLSCF")
+            fs = rng.choice([20.0, 32.0])
+            l = 3
+            N = rng.choice([1500, 2000])
+            nmodes = rng.randint(2, 3)
+            ordmax = (rng.randint(5, 8) if is_p else rng.randint(6, 9)) if ctx.quick() else (rng.randint(5, 10) if is_p else rng.randint(6, 16))
+            sc = dict(err_fn=rng.choice([0.05, 0.1]), err_xi=rng.choice([0.5, 1.0]), err_phi=rng.choice([0.1, 0.3]))
+            base = dict(extra, ordmax=ordmax, ordmin=0, sc=sc)
+            if is_p:
+                base["nxseg"] = 128
+            else:
+                base["br"] = -(-ordmax // l) + rng.randint(2, 4)
+            if kind.endswith("_MS"):
+                nref, nsets = 2, 2
+                big = synth(np.random.default_rng(int(nrng.integers(1 << 30))), N, nref + nsets, fs, nmodes)
+                data = dict(ref_ind=[list(range(nref))] * nsets,
+                            datasets=[big[:, list(range(nref)) + [nref + k]] + 0.02 * nrng.standard_normal((N, nref + 1)) for k in range(nsets)])
+                if not is_p:
+                    base["br"] = max(base["br"], -(-ordmax // nref) + 2)
+            else:
+                data = synth(nrng, N, l, fs, nmodes)
+            has_cov = bool(base.get("calc_unc"))
+            hc_open = dict(HC_OPEN, **({} if is_p else {"cov_max": 1e300}))
+            try:
+                r0 = run_class(kind, data, fs, dict(base, hc=hc_open))
+            except Exception as e:  # noqa: BLE001
+                ctx.count(dict(kind="class", cls=kind, label="hc-open"))
+                ctx.fail("oracle", "%s.run raised %s: %s with every hard criterion open" % (kind, type(e).__name__, str(e)[:200]),
+                         dict(kind="class", cls=kind, fs=fs, params=dict(base, hc=hc_open), data=data), key="C10:%s.run:raised-%s" % (kind, type(e).__name__))
+                continue
+            F0, X0, P0 = np.asarray(r0.Fn_poles, dtype=float), np.asarray(r0.Xi_poles, dtype=float), np.asarray(r0.Phi_poles)
+            alive0 = ~np.isnan(F0)
+            n0 = int(alive0.sum())
+            vals = {"xi_max": X0[alive0 & ~np.isnan(X0)]}
+            for name, f in (("mpc_lim", gen.MPC), ("mpd_lim", gen.MPD)):
+                out = []
+                for i, o in np.argwhere(alive0):
+                    try:
+                        out.append(float(np.real(f(P0[i, o, :]))))
+                    except Exception:  # noqa: BLE001
+                        pass
+                vals[name] = np.array([v for v in out if v == v])
+            if has_cov and getattr(r0, "Fn_poles_cov", None) is not None:
+                cv = np.asarray(r0.Fn_poles_cov, dtype=float)
+                vals["cov_max"] = cv[alive0 & ~np.isnan(cv)]
+            crits = ["conj", "xi_max", "mpc_lim", "mpd_lim"] + (["cov_max", "cov_max-stable"] if "cov_max" in vals else [])
+            for crit in crits:
+                hc = dict(hc_open)
+                if crit == "conj":
+                    hc["conj"] = True
+                elif crit == "cov_max-stable":  # the median covariance of the poles that are stable with every criterion open
+                    st = (np.asarray(r0.Lab) == 1) & ~np.isnan(cv)
+                    if st.sum() < 2:
+                        ctx.hist("hc-bites", "%s: no values" % crit)
+                        continue
+                    hc["cov_max"] = float(np.median(cv[st]))
+                else:
+                    v = vals[crit]
+                    if v.size < 2:
+                        ctx.hist("hc-bites", "%s: no values" % crit)
+                        continue
+                    qlo, qhi = (0.15, 0.5) if crit == "cov_max" else (0.3, 0.7)
+                    hc[crit] = float(np.quantile(v, qlo + (qhi - qlo) * rng.random()))
+                ordmin = rng.choice([0, 1, 2])
+                params = dict(base, ordmin=ordmin, hc=hc)
+                ctx.hist("stream", "B-hc")
+                Lab = class_case(ctx, kind, data, fs, params, exprs, meta, "hc-bites:%s round %d" % (crit, rnd))
+                if Lab is None:
+                    continue
+                n1 = int((~np.isnan(np.asarray(meta[-1][3]))).sum())
+                ctx.hist("hc-bites", "%s: %s" % (crit, "none rejected" if n1 == n0 else ("all rejected" if n1 == 0 else "some rejected")))
+
+
 # ---------------------------------------------------------------------------------------------------------------
 
 
@@ -636,6 +742,15 @@ def run(ctx):
         ctx.hist("stream", "corpus")
         if c["kind"] == "class":
             Lab = class_case(ctx, c["cls"], c["data"], c["fs"], c["params"], exprs, meta, "corpus:" + name)
+            if Lab is not None and c.get("open_hc") is not None:
+                # keep the case discriminating: with the criterion open some poles are stable that the stated criterion rejects
+                try:
+                    r_open = run_class(c["cls"], c["data"], c["fs"], dict(c["params"], hc=c["open_hc"]))
+                    lost = (np.asarray(r_open.Lab) == 1) & np.isnan(np.asarray(meta[-1][3]))
+                    if not lost.any():
+                        ctx.note("corpus case %s no longer rejects a pole that is stable with the criterion open" % name)
+                except Exception as e:  # noqa: BLE001
+                    ctx.note("corpus case %s: the open-criteria run raised %s" % (name, type(e).__name__))
             if Lab is not None and c.get("expect_stable_at_column") is not None:
                 col = int(c["expect_stable_at_column"])
                 if not (Lab.shape[1] > col and Lab[:, col].sum() > 0):
@@ -725,6 +840,9 @@ def run(ctx):
         p2 = dict(params, ordmin=ordmin)
         ctx.hist("stream", "B")
         class_case(ctx, kind, data, fs, p2, exprs, meta, "rep%d ordmin=%d" % (rep, ordmin))
+
+    # ---------------- stream B-hc: every hard criterion biting, one at a time, for every class variant
+    bite_stream(ctx, exprs, meta)
 
     # ---------------- model evaluation and comparison
     res = balanced_eval(ctx, exprs, ctx.n(24, 16))
